@@ -567,7 +567,7 @@ func (a *agg) runPhase(bin string, ph phase, n int, deadline time.Time) {
 						a.setHard("the harness itself panicked in " + site + ":\n" + excerpt)
 						return
 					}
-					rp, _ := json.Marshal(map[string]any{"kind": "death", "history": r.ann.History, "maxDev": ph.MaxDev})
+					rp, _ := json.Marshal(map[string]any{"key": key, "kind": "death", "history": r.ann.History, "maxDev": ph.MaxDev})
 					a.mu.Lock()
 					a.deaths++
 					a.deathsByKey[key]++
@@ -779,7 +779,7 @@ func run(c *core.Ctx) {
 		phases = []phase{{1, 2, 2}, {2, 2, 2}, {3, 1, 1}}
 		raceDepth, raceReps, raceReserve = 2, 5, 25*time.Second
 	} else {
-		phases = []phase{{1, 2, 3}, {2, 2, 3}, {3, 2, 1}, {3, 1, 2}, {4, 1, 1}}
+		phases = []phase{{1, 2, 3}, {2, 2, 3}, {3, 2, 2}, {4, 1, 1}}
 		raceDepth, raceReps, raceReserve = 2, 100, 4*time.Minute
 	}
 	a := &agg{c: c, byDepth: map[string]int64{}, deathsByKey: map[string]int64{}, confirmedSig: map[string]int{}, cappedFirst: -1}
@@ -834,6 +834,7 @@ func run(c *core.Ctx) {
 func replay(c *core.Ctx, raw json.RawMessage) error {
 	var rc struct {
 		Kind string `json:"kind"`
+		Key  string `json:"key"`
 	}
 	if err := json.Unmarshal(raw, &rc); err != nil {
 		return fmt.Errorf("bad replay value: %v", err)
@@ -863,6 +864,10 @@ func replay(c *core.Ctx, raw json.RawMessage) error {
 	var found []string
 	r := spawn(bin, test, cfgPath, 0, 0, -1, env, 180*time.Second, func(rec histRecord) {
 		for _, v := range rec.Violations {
+			if rc.Key != "" && v.Key != rc.Key {
+				fmt.Printf("note: this history also shows %s (not what this replay was recorded for)\n", v.Key)
+				continue
+			}
 			found = append(found, v.Key+": "+v.What)
 		}
 		if rec.Note != "" {
